@@ -198,9 +198,10 @@ func phaseRounds(r *vlib.Run, portable bool) {
 	default:
 		if r.Quick() {
 			specs = append(specs,
-				mk(1, 2, true, 2, 2, 12, 1.0),
-				mk(2, 6, true, 3, 2, 16, 1.0),
-				mk(3, ncpu, false, 4, 4, 24, 1.3))
+				mk(1, 2, true, 2, 2, 20, 2.0),
+				mk(2, 6, true, 3, 2, 28, 2.0),
+				mk(3, ncpu, false, 4, 4, 48, 2.6),
+				mk(4, 4, true, 2, 3, 16, 2.0))
 		} else {
 			procs := []int{2, 6, ncpu, 3, 12, 1}
 			for i := 0; i < 18; i++ {
